@@ -115,7 +115,8 @@ Proof.
     destruct (exec gr o p (flagged st i) st0) as [st1 r]. apply K. exact F.
   - destruct (guarded && flagged st i)%bool.
     + apply K. apply frame_refl.
-    + cbn [wrapper_inner_from_instance sem_fixed].
+    + destruct (pre_raise post); [apply K; apply frame_refl|].
+      cbn [wrapper_inner_from_instance sem_fixed].
       pose proof (G st0 o c h) as F. destruct (gr st0 o c h) as [sti ri]. cbn [fst] in F.
       destruct ri; apply K; exact F.
 Qed.
